@@ -15,6 +15,58 @@ CLAIMS = {
         "note": TRUST,
         "technique": "abstract interpretation (may-alias origins + write effects) with computed callee summaries over the ast; exemption table from the statement",
     },
+    "C17": {
+        "text": "Effect system + flag typestate checked on every ListOfDicts method (the induction step over all derivation "
+                "histories): item dicts of the receiver are written only by deco.obsoletes methods, items of another list never; "
+                "the decorated set equals the statement's editors; _obsolete is set only by _mark_obsolete, on every path, with "
+                "recursion into the predecessor; the wrapper marks the receiver on every normal path; the warning is printed "
+                "only under _obsolete and not _obsolete_warned and every printing path sets the flag; every list sharing items is "
+                "built by self._new, the sole writer of _predecessor; deepcopy yields fresh items and no predecessor. Decides the "
+                "discipline that makes the behaviour hold for all histories; not the caller-side timing of the warning.",
+        "note": TRUST,
+        "technique": "abstract interpretation of write effects on item-dict origins + CFG dominator/post-dominator typestate rules on the flags",
+    },
+    "C14": {
+        "text": "Alias clause decided exactly for all argument combinations: each io.py function declared an alias (via "
+                "format_alias_doc) has the target's signature and forwards every parameter under its own name in a single call "
+                "on every path. Restriction clause decided structurally: liveness and by-name use of columns/keys/dtypes/types in "
+                "all readers and order provenance at positional labelling sites. Not decided: cast-after-read == cast-while-read.",
+        "note": TRUST,
+        "technique": "signature comparison + keyword-forwarding analysis + order-provenance dataflow over reaching definitions",
+    },
+    "C20": {
+        "text": "Totality and purity of rendering as far as code shape decides them: override/keyword compatibility at dynamically "
+                "dispatched entry points, no write effect on the rendered object in the rendering call graph, every identity-less "
+                "reduction reachable from an entry point guarded against empty operands (obligation moved to call sites for helper "
+                "parameters, also through local function aliases), null-geometry accesses guarded, cell lists padded. Not decided: "
+                "exact widths/wording.",
+        "note": TRUST,
+        "technique": "override-compatibility + effect analysis + guard-dominates-partial-operation (CFG must-facts) + nullable-source rule",
+    },
+    "C11": {
+        "text": "Necessary conditions of Vector.sort/rank/unique for all inputs: stable sort kinds, missing-last assembly with the "
+                "mask computed from the final vector on every exit, every rank branch fills both partitions and unknown methods "
+                "raise, first-occurrence indices sorted, and totality on empty / entirely missing vectors (reductions guarded, "
+                "fixed-width cast width >= 1 by interval analysis). Not decided: that the ranks are the right numbers.",
+        "note": TRUST,
+        "technique": "CFG must-facts + tiny interval domain for guards; def-use rules for stability and NA-last structure",
+    },
+    "C03": {
+        "text": "Necessary conditions of DataFrame.sort for all inputs: a single lexsort permutation indexes all columns, keys "
+                "reach lexsort in reversed user order, rank fallback is method='min', directions validated before use, key "
+                "construction total on empty/all-missing columns and free of writes on the receiver. Not decided: the order itself.",
+        "note": TRUST,
+        "technique": "loop-invariant index rule, def-use on the lexsort argument, must-facts for direction validation, guard and effect engines",
+    },
+    "C02": {
+        "text": "Necessary conditions of the nine row-subsetting methods for all inputs: one loop-invariant row index per method with "
+                "the right keep/drop operator, filter/filter_out sibling agreement against the statement's semantics, drop_na "
+                "any-column accumulation, clamping in head/tail/sample, order-preserving sample, NA mask as its own key "
+                "component in unique (sentinel soundness under IEEE-754), totality on 0-row frames, mask length check. Not "
+                "decided: which rows a given mask selects.",
+        "note": TRUST,
+        "technique": "sibling feature records vs spec table, loop-invariant index rule, clamp-dominates-use, sentinel/mask dataflow, guard engine",
+    },
 }
 
 PENDING = "check under construction in this session (static rule designed in DESIGN.md section 5, not yet implemented)"
